@@ -10,6 +10,8 @@ code->spec: larger random inputs and a long session of class objects, validated 
 """
 import itertools
 import json
+import subprocess
+import sys
 
 from permuta import Av, Basis, BivincularPatt, CovincularPatt, MeshBasis, MeshPatt, Perm, VincularPatt
 
@@ -77,6 +79,15 @@ def universe(rnd, quick):
     trap = [[((0, 1), ((1, 1),)), ((0, 1), ((0, 0), (1, 1)))],
             [((0, 1), ((1, 0), (1, 1), (1, 2))), ((1, 0), ((0, 1), (1, 1), (2, 1)))],          # vincular + covincular
             [((0, 1), ()), ((0, 1), ((0, 0),)), ((1, 0), ((2, 2),))]]
+    # structurally special inputs: fully shaded grids, bivincular-type elements of length 3 next to what they contain
+    def fullR(k, cols, rows):
+        return tuple(sorted({(x, y) for x in cols for y in range(k + 1)} | {(x, y) for y in rows for x in range(k + 1)}))
+    trap += [[((0, 1, 2), fullR(3, [1], [])), ((0, 1), ())],
+             [((0, 2, 1), fullR(3, [1, 2], [])), ((1, 0), fullR(2, [], [1])), ((0, 2, 1), ())],
+             [((1, 0), fullR(2, [0, 1, 2], [])), ((1, 0), ()), ((0,), fullR(1, [0, 1], []))],
+             [((), ((0, 0),)), ((0,), fullR(1, [0, 1], [])), ((0,), ())],
+             [((2, 0, 1), fullR(3, [], [0, 3])), ((2, 0, 1), fullR(3, [0], [0, 3])), ((1, 0), fullR(2, [], [0]))],
+             [((0, 1, 2), fullR(3, [0, 3], [0, 3])), ((0, 1), fullR(2, [0, 2], [0, 2])), ((0,), fullR(1, [0], [0]))]]
     def r2():
         p = rnd.choice(s[2])
         return (p, tuple((x, y) for x in range(3) for y in range(3) if rnd.random() < rnd.choice([0.15, 0.4, 0.7])))
@@ -158,6 +169,11 @@ def run(ctx):
             res = MeshBasis(*objs)
         events.append({"op": "Build", "elems": [{"p": list(p), "R": [list(c) for c in R]} for p, R in el],
                        "res": [{"p": list(okey(o)[0]), "R": [list(c) for c in okey(o)[1]]} for o in res]})
+    nbase = len(events)
+    forms_session(ctx, rnd, quick, events)
+    routes_session(ctx, rnd, quick, events)
+    cold_start(ctx, rnd, quick, events)
+    ctx.note("events_forms_and_routes", len(events) - nbase)
     # long session: many distinct classes, then the early ones are requested again
     Av.clear_cache()
     pool = []
@@ -182,11 +198,299 @@ def run(ctx):
     ctx.sample({"machine": "Trace_C05", "events": events[:2]})
     for b in v["verdict"]:
         ev = events[b["i"] - 1]
-        ctx.violation({"kind": "trace-event", "event": ev}, b["clause"], "Minimal(elems) / identity iff equal minimal sets", ev.get("res", ev.get("same")))
+        ctx.violation({"kind": "trace-event", "event": ev}, b["clause"], "Minimal(elems) / identity iff equal minimal sets / == iff equal minimal sets / class size by definition",
+                      ev.get("res", ev.get("same", ev.get("eq", ev.get("count")))))
     ctx.rule = ("input sets of classical / mesh / bivincular-type patterns; TLC runs the sort-and-prune construction and "
                 "proves result = minimal elements, same class; the real constructors are called for every order (<= 6), "
                 "with a repetition, through every entry point and element representation; non-trivial = input with at "
                 "least one non-minimal element; plus larger random inputs and a session of >1000 class objects (Trace_C05)")
+
+
+def jel(p, R):
+    return {"p": list(p), "R": [list(c) for c in R]}
+
+
+def jres(res):
+    return [{"p": list(okey(o)[0]), "R": [list(c) for c in okey(o)[1]]} for o in res]
+
+
+SEPS = ["\n", "\t", " ; ", "x", " and ", "][", "--", ")(", " | ", ".", "/", ":"]
+
+
+def special_classical(rnd, n):
+    """Structurally special permutations: monotone, layered, a pattern with a point added at a boundary."""
+    kind = rnd.randrange(5)
+    if kind == 0:
+        return tuple(range(n))
+    if kind == 1:
+        return tuple(reversed(range(n)))
+    if kind == 2:                                   # layered
+        out, lo = [], 0
+        while lo < n:
+            w = rnd.randint(1, min(3, n - lo))
+            out.extend(reversed(range(lo, lo + w)))
+            lo += w
+        return tuple(out)
+    return util.rand_perm(rnd, n)
+
+
+def grow(rnd, p):
+    """p with one more point at a boundary position or value (so p is contained in the result)."""
+    n = len(p)
+    where = rnd.randrange(4)
+    if where == 0:
+        return (n,) + tuple(p)
+    if where == 1:
+        return tuple(p) + (n,)
+    if where == 2:
+        return (0,) + tuple(v + 1 for v in p)
+    return tuple(v + 1 for v in p) + (0,)
+
+
+def forms_session(ctx, rnd, quick, events):
+    """code -> spec: the same finite collection handed over in every container / iterator form, through every
+    public entry point, with larger (length 4-7) and structurally special elements; each result is judged by
+    TLC as Minimal(elems) (Build), pairs of results as == iff equal minimal sets (Canon), classes by size (Class)."""
+    nforms = set()
+    allres = []
+    for rnd_i in range(36 if quick else 300):
+        mesh = rnd_i % 3 == 2
+        if not mesh:
+            base_len = rnd.choice([3, 4, 4, 5, 6])
+            el = []
+            for _ in range(rnd.randint(1, 4)):
+                p = special_classical(rnd, rnd.randint(max(1, base_len - 1), min(7, base_len + 1)))
+                el.append(p)
+                if rnd.random() < 0.5 and len(p) < 7:
+                    el.append(grow(rnd, p))          # a non-minimal element at a boundary
+            if rnd_i % 9 == 0:
+                el = el[:1]                          # singleton
+            if rnd_i % 18 == 3:                      # the longest patterns that digit strings can spell: 9 (1-based) and 10 (0-based)
+                n = 9 + (rnd_i % 36 == 3)
+                el = [special_classical(rnd, n), util.rand_perm(rnd, n), special_classical(rnd, n - 1)]
+            rnd.shuffle(el)
+            el = [(p, ()) for p in el]
+            objs = [Perm(p) for p, _ in el]
+            nums = all(1 <= len(p) <= 9 for p, _ in el)
+            forms = [("Basis(*gen)", lambda: Basis(*(o for o in objs))),
+                     ("Basis.from_iterable(generator)", lambda: Basis.from_iterable(o for o in objs)),
+                     ("Basis.from_iterable(set)", lambda: Basis.from_iterable(set(objs))),
+                     ("Basis.from_iterable(frozenset)", lambda: Basis.from_iterable(frozenset(objs))),
+                     ("Basis.from_iterable(reversed tuple)", lambda: Basis.from_iterable(reversed(tuple(objs)))),
+                     ("Basis.from_iterable(map)", lambda: Basis.from_iterable(map(Perm, [p for p, _ in el]))),
+                     ("Basis.from_iterable(filter)", lambda: Basis.from_iterable(filter(lambda o: True, objs))),
+                     ("Basis.from_iterable(Basis)", lambda: Basis.from_iterable(Basis(*objs))),
+                     ("Basis(*Basis, *elems)", lambda: Basis(*Basis(*objs), *objs)),
+                     ("Basis.from_iterable(dict keys)", lambda: Basis.from_iterable(dict.fromkeys(objs))),
+                     ("Av(set)", lambda: Av(set(objs)).basis),
+                     ("Av(generator)", lambda: Av(o for o in objs).basis),
+                     ("Av(tuple)", lambda: Av(tuple(objs)).basis),
+                     ("Av(Basis)", lambda: Av(Basis(*objs)).basis),
+                     ("Av.from_iterable(frozenset)", lambda: Av.from_iterable(frozenset(objs)).basis),
+                     ("Av.from_iterable(Basis)", lambda: Av.from_iterable(Basis(*reversed(objs))).basis),
+                     ("MeshBasis.from_iterable(generator of Perm)", lambda: MeshBasis.from_iterable(o for o in objs)),
+                     ("MeshBasis(*Basis)", lambda: MeshBasis(*Basis(*objs)))]
+            if nums:
+                sep = rnd.choice(SEPS)
+                sep2 = rnd.choice(SEPS)
+                t0 = sep.join("".join(str(v) for v in p) for p, _ in el)
+                t1 = sep2.join("".join(str(v + 1) for v in p) for p, _ in el)
+                forms += [("Basis.from_string/0 sep=%r" % sep, lambda: Basis.from_string(t0)),
+                          ("Basis.from_string/1 sep=%r" % sep2, lambda: Basis.from_string(t1)),
+                          ("Basis.from_string/0 wrapped", lambda: Basis.from_string("Av(" + t0 + ")\n")),
+                          ("Av.from_string/1 sep=%r" % sep2, lambda: Av.from_string(t1).basis),
+                          ("Av.from_string/0 leading sep", lambda: Av.from_string(sep + t0 + sep).basis)]
+            if all(1 <= len(p) <= 10 for p, _ in el) and not nums:
+                tz = " , ".join("".join(str(v) for v in p) for p, _ in el)
+                forms.append(("Basis.from_string/0 ten digits", lambda: Basis.from_string(tz)))
+        else:
+            el = []
+            for _ in range(rnd.randint(1, 3)):
+                k = rnd.choice([2, 3, 3, 4])
+                p = util.rand_perm(rnd, k)
+                mode = rnd.randrange(5)
+                if mode == 0:                        # bivincular type
+                    cols = [x for x in range(k + 1) if rnd.random() < 0.35]
+                    rows = [y for y in range(k + 1) if rnd.random() < 0.25]
+                    R = tuple(sorted({(x, y) for x in cols for y in range(k + 1)} | {(x, y) for y in rows for x in range(k + 1)}))
+                elif mode == 1:                      # fully shaded
+                    R = tuple((x, y) for x in range(k + 1) for y in range(k + 1))
+                else:
+                    dens = rnd.choice([0.0, 0.15, 0.4])
+                    R = tuple((x, y) for x in range(k + 1) for y in range(k + 1) if rnd.random() < dens)
+                el.append((p, R))
+                if rnd.random() < 0.5:               # the same underlying pattern with more / fewer cells, or its classical pattern
+                    R2 = tuple(c for c in R if rnd.random() < 0.6)
+                    el.append((p, R2))
+                if rnd.random() < 0.3 and k < 4:
+                    el.append((grow(rnd, p), ()))
+            rnd.shuffle(el)
+            objs = [represent(p, R, rnd.randint(0, 3)) for p, R in el]
+            if not any(isinstance(o, MeshPatt) for o in objs):
+                objs[0] = MeshPatt(objs[0], [])
+            forms = [("MeshBasis(*gen)", lambda: MeshBasis(*(o for o in objs))),
+                     ("MeshBasis.from_iterable(generator)", lambda: MeshBasis.from_iterable(o for o in objs)),
+                     ("MeshBasis.from_iterable(set)", lambda: MeshBasis.from_iterable(set(objs))),
+                     ("MeshBasis.from_iterable(reversed)", lambda: MeshBasis.from_iterable(reversed(objs))),
+                     ("MeshBasis.from_iterable(MeshBasis)", lambda: MeshBasis.from_iterable(MeshBasis(*objs))),
+                     ("MeshBasis(*MeshBasis, *elems)", lambda: MeshBasis(*MeshBasis(*objs), *objs)),
+                     ("MeshBasis.from_iterable(map)", lambda: MeshBasis.from_iterable(map(lambda e: MeshPatt(Perm(e[0]), list(e[1])), el))),
+                     ("Av(set)", lambda: Av(set(objs)).basis),
+                     ("Av(generator)", lambda: Av(o for o in objs).basis),
+                     ("Av(MeshBasis)", lambda: Av(MeshBasis(*objs)).basis),
+                     ("Av.from_iterable(tuple)", lambda: Av.from_iterable(tuple(reversed(objs))).basis)]
+        jel_ = [jel(p, R) for p, R in el]
+        got = []
+        for name, mk in forms:
+            st, res = util.call(mk)
+            if st == "raise":
+                ctx.violation({"kind": "trace-form", "form": name, "elems": jel_}, "ConstructionSucceeds", "a basis", {"raised": res})
+                continue
+            nforms.add(name.split(" sep=")[0])
+            events.append({"op": "Build", "form": name, "elems": jel_, "res": jres(res)})
+            got.append(res)
+        # canonical: all results of one kind are equal with equal hashes (judged by TLC from the element lists)
+        for kind in (Basis, MeshBasis):
+            same = [g for g in got if type(g) is kind]
+            for g in same[1:]:
+                events.append({"op": "Canon", "a": jel_, "b": jel_, "eq": bool(g == same[0] and not g != same[0]), "heq": hash(g) == hash(same[0])})
+        allres.append((mesh, jel_, got[0] if got else None, objs))
+    # different collections against each other (== iff the minimal sets coincide)
+    pool = [x for x in allres if x[2] is not None]
+    for _ in range(40 if quick else 400):
+        a, b = rnd.choice(pool), rnd.choice(pool)
+        if type(a[2]) is type(b[2]):
+            events.append({"op": "Canon", "a": a[1], "b": b[1], "eq": bool(a[2] == b[2]), "heq": hash(a[2]) == hash(b[2])})
+    # the class is the class of the input, at lengths beyond the machine's bound
+    ncls = 0
+    for mesh, jel_, res, objs in pool:
+        if ncls >= (14 if quick else 120) or any(len(e["p"]) == 0 for e in jel_):
+            continue
+        n = 5 if mesh else rnd.choice([5, 6])
+        st, cnt = util.call(lambda: Av(objs).count(n))
+        if st == "raise":
+            ctx.violation({"kind": "trace-form", "form": "Av(list).count", "elems": jel_}, "ConstructionSucceeds", "a number", {"raised": cnt})
+            continue
+        events.append({"op": "Class", "elems": jel_, "n": n, "count": cnt})
+        ncls += 1
+    # degenerate collections
+    for name, mk in (("Basis()", lambda: Basis()), ("Basis.from_iterable([])", lambda: Basis.from_iterable([])),
+                     ("Basis.from_iterable(empty generator)", lambda: Basis.from_iterable(x for x in ())),
+                     ("Basis.from_string('')", lambda: Basis.from_string("")), ("Basis.from_string(no digits)", lambda: Basis.from_string(" ,_;")),
+                     ("MeshBasis()", lambda: MeshBasis()), ("MeshBasis.from_iterable(set())", lambda: MeshBasis.from_iterable(set()))):
+        st, res = util.call(mk)
+        if st == "raise":
+            ctx.violation({"kind": "trace-form", "form": name, "elems": []}, "ConstructionSucceeds", "the empty basis", {"raised": res})
+        else:
+            events.append({"op": "Build", "form": name, "elems": [], "res": jres(res)})
+    ctx.note("container_forms_exercised", len(nforms))
+
+
+def routes_session(ctx, rnd, quick, events):
+    """History lens: one process, several epochs separated by clear_cache(); inside an epoch every route to a class
+    (Av(Basis), Av(list), Av(generator), Av.from_iterable, Av.from_string 0-/1-based, mesh presentations with
+    different subclasses) must give the one object, also after the class was enumerated; objects of different
+    epochs are not compared (nothing is promised across clear_cache)."""
+    s = {n: util.perms_of(n) for n in range(1, 6)}
+    for epoch in range(3 if quick else 8):
+        Av.clear_cache()
+        reg = []
+        for _ in range(10 if quick else 30):
+            if rnd.random() < 0.6:
+                el = [(rnd.choice(s[rnd.choice([2, 3, 3, 4, 5])]), ()) for _ in range(rnd.randint(1, 3))]
+                objs = [Perm(p) for p, _ in el]
+                if Basis(*objs) == Basis(Perm()):
+                    continue
+                t0 = " ".join("".join(str(v) for v in p) for p, _ in el)
+                t1 = "\n".join("".join(str(v + 1) for v in p) for p, _ in reversed(el))
+                routes = [lambda: Av(Basis(*objs)), lambda: Av(list(objs)), lambda: Av(o for o in reversed(objs)),
+                          lambda: Av.from_iterable(set(objs)), lambda: Av.from_string(t0), lambda: Av.from_string(t1),
+                          lambda: Av(Basis.from_string(t1)), lambda: Av(tuple(objs) + tuple(objs[:1]))]
+            else:
+                el = []
+                for _ in range(rnd.randint(1, 2)):
+                    k = rnd.choice([1, 2, 2, 3])
+                    p = rnd.choice(s[k])
+                    cols = [x for x in range(k + 1) if rnd.random() < 0.4]
+                    rows = [y for y in range(k + 1) if rnd.random() < 0.2]
+                    el.append((p, tuple(sorted({(x, y) for x in cols for y in range(k + 1)} | {(x, y) for y in rows for x in range(k + 1)}))))
+                mk = lambda v: [represent(p, R, v + i) if R else MeshPatt(Perm(p), []) for i, (p, R) in enumerate(el)]
+                routes = [lambda: Av(MeshBasis(*mk(0))), lambda: Av(mk(1)), lambda: Av(o for o in reversed(mk(2))),
+                          lambda: Av.from_iterable(set(mk(3))), lambda: Av(MeshBasis.from_iterable(iter(mk(1) + mk(0))))]
+            rnd.shuffle(routes)
+            jel_ = [jel(p, R) for p, R in el]
+            st, first = util.call(routes[0])
+            if st == "raise":
+                ctx.violation({"kind": "trace-form", "form": "Av route", "elems": jel_}, "ConstructionSucceeds", "a class", {"raised": first})
+                continue
+            if rnd.random() < 0.5:
+                first.count(rnd.randint(3, 5))               # the class is enumerated before it is requested again
+            for r in routes[1:]:
+                st, again = util.call(r)
+                if st == "raise":
+                    ctx.violation({"kind": "trace-form", "form": "Av route", "elems": jel_}, "ConstructionSucceeds", "a class", {"raised": again})
+                    continue
+                if type(again.basis) is type(first.basis):
+                    events.append({"op": "Ident", "a": jel_, "b": list(reversed(jel_)), "same": again is first, "epoch": epoch})
+            for jb, other in reg[-4:]:
+                if type(other.basis) is type(first.basis):
+                    events.append({"op": "Ident", "a": jel_, "b": jb, "same": other is first, "epoch": epoch})
+            reg.append((jel_, first))
+        # late in the epoch: the early classes once more, through a fresh route
+        for jb, obj in reg[:5]:
+            els = [represent(tuple(e["p"]), [tuple(c) for c in e["R"]], 1) if e["R"] else Perm(e["p"]) for e in jb]
+            if isinstance(obj.basis, MeshBasis):
+                els = [o if isinstance(o, MeshPatt) else MeshPatt(o, []) for o in els]
+            st, again = util.call(lambda: Av(iter(els)))
+            if st == "ok" and type(again.basis) is type(obj.basis):
+                events.append({"op": "Ident", "a": jb, "b": jb, "same": again is obj, "epoch": epoch})
+    Av.clear_cache()
+
+
+COLD = r"""
+import json, sys
+from permuta import Av, Basis, MeshBasis, MeshPatt, Perm
+spec = json.loads(sys.argv[1])
+els = [tuple(p) for p in spec["elems"]]
+t0 = " ".join("".join(str(v) for v in p) for p in els)
+t1 = ",".join("".join(str(v + 1) for v in p) for p in reversed(els))
+routes = {"from_string0": lambda: Av.from_string(t0), "from_string1": lambda: Av.from_string(t1),
+          "basis": lambda: Av(Basis(*map(Perm, els))), "generator": lambda: Av(Perm(p) for p in reversed(els)),
+          "from_iterable": lambda: Av.from_iterable(set(map(Perm, els))),
+          "mesh": lambda: Av([MeshPatt(Perm(p), []) for p in els]), "meshbasis": lambda: Av(MeshBasis(*map(Perm, els)))}
+objs = [routes[r]() for r in spec["routes"]]          # the very first calls of this process
+if spec["count"]:
+    objs[0].count(spec["count"])
+objs += [routes[r]() for r in spec["routes"]]
+out = []
+for r, o in zip(spec["routes"] * 2, objs):
+    out.append({"route": r, "kind": type(o.basis).__name__, "same": o is objs[0],
+                "basis": [[list(e), []] if isinstance(e, Perm) else [list(e.pattern), sorted(map(list, e.shading))] for e in o.basis]})
+print(json.dumps(out))
+"""
+
+
+def cold_start(ctx, rnd, quick, events):
+    """History lens, cold start: fresh interpreter processes whose very first calls are class requests for one basis
+    (larger elements, several routes); the objects must be one object per kind of basis and carry the minimal basis."""
+    s = {n: util.perms_of(n) for n in (3, 4, 5)}
+    names = ["from_string0", "from_string1", "basis", "generator", "from_iterable", "mesh", "meshbasis"]
+    for it in range(3 if quick else 12):
+        els = [util.rand_perm(rnd, rnd.choice([5, 6, 7, 8])) for _ in range(rnd.randint(1, 3))] + [rnd.choice(s[rnd.choice([3, 4, 5])])]
+        els.append(grow(rnd, els[-1]))
+        rnd.shuffle(els)
+        routes = rnd.sample(names, 4)
+        spec = {"elems": [list(p) for p in els], "routes": routes, "count": rnd.choice([0, 4, 6])}
+        r = subprocess.run([sys.executable, "-c", COLD, json.dumps(spec)], capture_output=True, text=True, timeout=300)
+        jel_ = [jel(p, ()) for p in els]
+        if r.returncode != 0:
+            ctx.violation({"kind": "cold-start", "spec": spec}, "ConstructionSucceeds", "class objects", {"stderr": r.stderr[-300:]})
+            continue
+        out = json.loads(r.stdout.strip().splitlines()[-1])
+        for o in out:
+            events.append({"op": "Build", "form": "cold start " + o["route"], "elems": jel_, "res": [{"p": e[0], "R": e[1]} for e in o["basis"]]})
+            if o["kind"] == out[0]["kind"]:
+                events.append({"op": "Ident", "a": jel_, "b": list(reversed(jel_)), "same": o["same"], "form": "cold start %s vs %s" % (out[0]["route"], o["route"])})
 
 
 def judge(ctx, rnd, rec, avs):
